@@ -248,7 +248,27 @@ func c03Model(r *fw.Rand) *model.G {
 	}
 	srids := []int{0, 0, 1, 4326, 1<<31 - 1, 1 << 31, 1<<32 - 1, int(r.Uint64() % (1 << 32))}
 	g.SRID = srids[r.Intn(len(srids))]
+	if g.Kind == model.Collection && r.Chance(1, 4) {
+		memberSRIDs(r, g)
+	}
 	return g
+}
+
+// memberSRIDs gives some members of a collection (recursively) an SRID of their
+// own: the enclosing collection's, or a different one.  EWKB carries an SRID per
+// geometry, so both must survive a round trip; WKB drops them all.
+func memberSRIDs(r *fw.Rand, g *model.G) {
+	for _, m := range g.Members {
+		switch r.Intn(4) {
+		case 0:
+			m.SRID = g.SRID
+		case 1:
+			m.SRID = []int{4326, 3857, 1, 1 << 31}[r.Intn(4)]
+		}
+		if m.Kind == model.Collection {
+			memberSRIDs(r, m)
+		}
+	}
 }
 
 func hasEmptyPoint(g *model.G) bool {
